@@ -4,7 +4,7 @@ From TV Require Import Base.Prelude Base.Utf8 Base.Winnow Model.Tree Model.Parse
 From TV Require Import Proofs.GrammarBase.
 From TV Require Import Proofs.SpansDefs Proofs.SpansDoc Proofs.SpansDespan Proofs.SpansExact Proofs.SpansReparse.
 From TV Require Import Proofs.SpansNestValue Proofs.SpansNestDoc.
-From TV Require Import Proofs.SpansBoundary Proofs.SpansBdDoc.
+From TV Require Import Proofs.SpansBoundary Proofs.SpansBdDoc Proofs.SpansDespanTotal.
 
 (* 1. every span stored anywhere in a successfully parsed document (key reprs, key decor, value reprs and
       decor, array / inline-table trailing, table spans, array-of-tables spans, document trailing:
@@ -125,6 +125,14 @@ Theorem C14_key_span_boundaries : forall s i r k i',
   r = RSpanned (pos i) (pos i') /\ char_boundary_b s (pos i) = true /\ char_boundary_b s (pos i') = true.
 Proof. exact key_span_boundaries. Qed.
 Print Assumptions C14_key_span_boundaries.
+
+(* 5'. consequence of 1 + 4: despan (ImDocument::into_mut) of a parsed well-formed UTF-8 document never fails: every
+       `str::get(span)` of RawString::despan succeeds (the panic site P_span_slice is unreachable) *)
+Theorem C14_despan_total : forall s d,
+  utf8_valid_b s = true -> parse_document s = POk d ->
+  exists r t, tbl_despan s (doc_root d) = Some r /\ raw_despan s (doc_trailing d) = Some t.
+Proof. exact despan_total. Qed.
+Print Assumptions C14_despan_total.
 
 (* ---- examples: the hypotheses are satisfiable, the statements say something --------------------------------------- *)
 (* "'é' = 'ü' # ö\n[t]\na.b = { x.y = 1, x.z = [ 2 ] }\n[[t.u]]\nk = 1\n[[t.u]]\n" (multi-byte characters, a dotted key, an
